@@ -24,9 +24,12 @@ def prep(v):
     if not os.path.exists(src):
         return None
     shutil.copy(src, d + '/demo_test.go')
-    p = subprocess.run(['diff', '-u', '--label', 'a/' + m['file'], '--label', 'b/' + m['file'], '/repo/' + m['file'], f'{MUT}/{i}.go'],
-                       stdout=subprocess.PIPE)
-    open(d + '/patch.diff', 'wb').write(p.stdout)
+    if os.environ.get('MT_PATCHES'):  # patches prepared against the checkout the mutants were generated from
+        shutil.copy(os.path.join(os.environ['MT_PATCHES'], '%d.diff' % i), d + '/patch.diff')
+    else:
+        p = subprocess.run(['diff', '-u', '--label', 'a/' + m['file'], '--label', 'b/' + m['file'], '/repo/' + m['file'], f'{MUT}/{i}.go'],
+                           stdout=subprocess.PIPE)
+        open(d + '/patch.diff', 'wb').write(p.stdout)
     first = open(d + '/demo_test.go').readline()
     demo_dir = '.'
     json.dump({"property": v.get('property'), "summary": f"mechanical mutant {i}: {m['file']}:{m['line']} {m['op']} ({m['before'][:80]} -> {m['after'][:80]}). {v.get('why','')}",
@@ -45,6 +48,6 @@ def confirm(i):
         json.dump(mm, open(mp, 'w'), indent=1)
     return i, ok, line
 ids = [x for x in (prep(v) for v in vs if v.get('verdict', '').startswith('BREAKS')) if x]
-with cf.ThreadPoolExecutor(5) as ex:
+with cf.ThreadPoolExecutor(int(os.environ.get('MT_JOBS', '5'))) as ex:
     for i, ok, line in ex.map(confirm, ids):
         print(i, 'stored' if ok else 'REJECTED', line.split(': ', 1)[-1])
